@@ -404,6 +404,17 @@ fn cases(tier: Tier) -> Vec<Case> {
         c
     }));
     TICKING.with(|t| t.set(false));
+    // the OwningAddr the builder returned is dropped (not detached) once the clients have their
+    // addresses: an owner is a handle like the others, letting go of it stops nothing
+    {
+        let var = crate::progscene::Variant { owner_dropped: true, ..Default::default() };
+        let extra = crate::progscene::with_variant(var, || all_cases(tier));
+        let step = if tier == Tier::Thorough { 1 } else { 3 };
+        v.extend(extra.into_iter().filter(|c| c.desc.contains("via=BuildOnStream") || c.desc.contains("via=BoundedOnStream")).enumerate().filter(|(i, _)| i % step == 0).map(|(_, mut c)| {
+            c.desc = c.desc.replacen("stream", "stream [the owner is dropped, not detached]", 1);
+            c
+        }));
+    }
     // a stream-attached actor that is a broker subscriber and has received a publication: the
     // broker does not keep it going either
     #[cfg(any(feature = "rt-tokio", feature = "rt-async"))]
